@@ -323,9 +323,9 @@ def strip_kind(l): return l.split(" #")[0]
 
 def blocks(lines):
     """canonical lines -> list of events: ('g', header, [member lines], free line) / ('recheck', ...) / other"""
-    ev = []; cur = None; point = None
+    ev = []; cur = None; point = None; gi = 0
     for l in lines:
-        if l.startswith("g "): cur = {"k": "g", "hdr": l[2:], "m": [], "end": None, "point": point}; ev.append(cur)
+        if l.startswith("g "): cur = {"k": "g", "hdr": l[2:], "m": [], "end": None, "point": point, "gi": gi}; ev.append(cur); gi += 1
         elif l.startswith(("s ", "p ", "t ")) and cur is not None: cur["m"].append(l)
         elif l.startswith(("free ", "call fault", "dump fault")) and cur is not None: cur["end"] = l; cur = None
         elif l.startswith("mark "): point = l[5:]; cur = None; ev.append({"k": "mark", "l": l})
@@ -404,13 +404,13 @@ def oracle(ev, info):
             elif l.startswith("recheck ") and not l.startswith("recheck done"):
                 t = l.split(); i = int(t[1])
                 if i < len(held) and strip_kind(held[i]["end"]) == "free fault": continue     # same fault as at the get, reported there
-                V.append(("getter.%s.deep-copy" % t[2], {"observed": l, "call": held[i]["hdr"] if i < len(held) else "?",
+                V.append(("getter.%s.deep-copy" % t[2], {"observed": l, "call": held[i]["hdr"] if i < len(held) else "?", "gi": [held[i]["gi"]] if i < len(held) else [], "whole_script": True,
                           "meaning": "a held result changed, could not be re-read or could not be freed after later state changes / stop"}))
             continue
         if e["k"] != "g": continue
         g = e["hdr"].split()[0]; ac = argclass(e["hdr"], info)
         if e["end"] is None or e["end"].startswith(("call fault", "dump fault")):
-            V.append(("getter.%s.%s.crash" % (g, ac), {"call": e["hdr"], "observed": e["end"] or "no result"})); continue
+            V.append(("getter.%s.%s.crash" % (g, ac), {"call": e["hdr"], "observed": e["end"] or "no result", "gi": [e["gi"]]})); continue
         held.append(e)
         flag = None
         for m in e["m"]:
@@ -430,17 +430,17 @@ def oracle(ev, info):
                 kinds = G_KINDS.get(g, ()); a = e["hdr"].split(); eid = a[1][2:] if len(a) > 1 and a[1].startswith("s:") else None
                 name = leaf(x)
             src = next((k for k in kinds if name in stu.get((k, eid), ())), None) if cls == "result" else None
-            if src: V.append(("state.uninit.%s.%s" % (src, name), {"call": e["hdr"], "member": x, "point": e["point"],
+            if src: V.append(("state.uninit.%s.%s" % (src, name), {"call": e["hdr"], "member": x, "point": e["point"], "gi": [e["gi"]],
                               "meaning": "the library state member was never initialised (stored from an unassigned parser local); the getter copies it into the result"}))
             else: own.append(x)
         if own:
             if g == "state":
                 for u in sorted(set(depath(x) for x in own)):
-                    V.append(("getter.state.%s.undef" % u, {"call": e["hdr"], "members": [x for x in own if depath(x) == u][:6], "point": e["point"]}))
+                    V.append(("getter.state.%s.undef" % u, {"call": e["hdr"], "members": [x for x in own if depath(x) == u][:6], "point": e["point"], "gi": [e["gi"]]}))
             else:
-                V.append(("getter.%s.%s.undef" % (g, cls), {"call": e["hdr"], "argument_class": ac, "undefined_members": own, "point": e["point"]}))
+                V.append(("getter.%s.%s.undef" % (g, cls), {"call": e["hdr"], "argument_class": ac, "undefined_members": own, "point": e["point"], "gi": [e["gi"]]}))
         if strip_kind(e["end"]) == "free fault":
-            V.append(("getter.%s.%s.free-fault" % (g, cls), {"call": e["hdr"], "argument_class": ac, "observed": e["end"], "members": e["m"][:8], "point": e["point"]}))
+            V.append(("getter.%s.%s.free-fault" % (g, cls), {"call": e["hdr"], "argument_class": ac, "observed": e["end"], "members": e["m"][:8], "point": e["point"], "gi": [e["gi"]]}))
         if g == "state": snaps[e["point"]] = e
         elif g in G_KINDS: singles[(e["point"], e["hdr"])] = e
     # snapshot vs single-entity getters at the same point
@@ -465,10 +465,23 @@ def oracle(ev, info):
                 name = n[5:] if n.startswith("data.") else n
                 got = sv.get((k, pre + name))
                 if got != v and got != "undef":
-                    V.append(("snapshot.%s.%s.mismatch" % (arr, depath(name)), {"point": point, "entity": idv[0], "member": n, "snapshot": v, "single_getter": got, "call": sg["hdr"]}))
+                    V.append(("snapshot.%s.%s.mismatch" % (arr, depath(name)), {"point": point, "entity": idv[0], "member": n, "snapshot": v, "single_getter": got, "call": sg["hdr"], "gi": [sn["gi"], sg["gi"]]}))
     return V
 
 # ------------------------------------------------------------------ the check
+def reproducer(script, gis, whole):
+    """smallest script that shows the observation again: the state changes that precede the call(s), then the call(s)"""
+    if whole or not gis: return list(script)
+    pos = [i for i, l in enumerate(script) if l.startswith("c17get ")]
+    idx = sorted(pos[g] for g in gis if g < len(pos))
+    if not idx: return list(script)
+    out = [l for l in script[:idx[0]] if l.startswith(("logw", "case", "start", "c17mut"))]
+    out += ["c17state"] + [script[i] for i in idx] + ["stop", "c17recheck", "c17release"]
+    return out
+
+def config_files(cfg):
+    return {f: open(os.path.join(cfg, f)).read() for f in sorted(os.listdir(cfg)) if f.endswith(".yml")}
+
 def learn(exe, cfg):
     rc, out, err = vlib.run_driver(exe, "logw 0\nstart 0 %s 0\nc17state\nstop\n" % cfg, timeout=120, env_extra=asan_env(PAINTS[0]))
     L = out.splitlines()
@@ -477,21 +490,21 @@ def learn(exe, cfg):
 
 def run(ck):
     quick = ck.tier == "quick"
-    cdir, ok = vlib.proof_phase(ck, "Properties_C17.v")
+    cdir, ok = vlib.proof_phase(ck, "Properties_C17.v", translators=("getfacts",))
     exes = (vlib.build_harness(extra_defs=BUILD_A), vlib.build_harness(extra_defs=BUILD_B))   # -O0: members the source never writes stay unwritten
     exe = exes[0]
     md = vlib.build_model_driver(cdir, "_C17")
     r = Rng(ck.seed).fork("C17")
     tmp = vlib.mktmp("vc17")
     cfgs = [os.path.join(vlib.REPO, "test/unit/state_tests_config"), os.path.join(vlib.REPO, "test/unit/config_tests_config")]
-    for k in range(4 if quick else 30):
+    for k in range(4 if quick else 20):
         d = os.path.join(tmp, "cfg%d" % k); gen_config(r.fork("cfg%d" % k), d, k); cfgs.append(d)
     infos = []
     for c in cfgs:
         info = learn(exe, c)
         if info is not None: infos.append((c, info))
     ck.oblige("configurations accepted by the library (%d of %d)" % (len(infos), len(cfgs)), len(infos) >= 2, "")
-    ncases = len(infos) * (1 if quick else 4)
+    ncases = len(infos) * (1 if quick else 2)
     evals = 0; dis = 0; nontrivial = 0; samples = []; dist = {}; unstable_all = set(); keys_seen = {}
     for ci in range(ncases):
         cfg, info = infos[ci % len(infos)]
@@ -514,8 +527,11 @@ def run(ck):
         # oracle on the implementation's observation
         for key, detail in oracle(ev, info):
             keys_seen[key] = keys_seen.get(key, 0) + 1
-            detail = dict(detail); detail.update({"property": "C17", "key": key, "config": cfg, "script": script if len(script) < 400 else script[:3] + ["... %d lines ..." % len(script)],
-                                                  "replay_hint": "bin/check C17 --replay <this file>"})
+            if keys_seen[key] > 1: continue                  # one replay per key: the first (stock configurations come first)
+            detail = dict(detail); gis = detail.pop("gi", []); whole = detail.pop("whole_script", False)
+            detail.update({"property": "C17", "key": key, "config": cfg, "config_files": config_files(cfg),
+                           "script": reproducer(script, gis, whole),
+                           "how_to_replay": "bin/check C17 --replay <this file>  (builds the two harnesses, recreates the configuration if needed, runs the script, prints the oracle's keys)"})
             ck.violation(key, detail)
         # correspondence with the model
         if ilines != mlines:
@@ -536,19 +552,27 @@ def run(ck):
     return vlib.finish_with_broken(ck, trusted=vlib.TRUSTED_COMMON + [
         "harness/ext_C17.inc: stack/result-slot painting + ASan malloc_fill_byte as the definedness observer (a member is called undefined iff it shows the paint byte in both runs; values the getter copies from uninitialised library state are not detected); fork + ASan as the observer of faulting free / re-read",
         "the abstraction of the library state handed to the model is read from bidib_boards / bidib_trains / bidib_track_state by the harness (c17_state_dump)",
-        "library objects built with -O0 for this check (at -O1 clang turns never-written members into arbitrary register contents)"])
+        "library objects built with -O0 for this check (at -O1 clang turns never-written members into arbitrary register contents)",
+        "translator/gen_getfacts.py (clang JSON AST -> assigned-member facts and struct layouts); its output is compared with the model inside Coq (C17_model_matches_source)"])
 
 def replay(ck, path):
     """re-run the script of a replay file against the current tree and print the oracle's verdict"""
     rp = json.load(open(path))
-    print(json.dumps({k: rp[k] for k in rp if k != "script"}, indent=1))
+    print(json.dumps({k: rp[k] for k in rp if k not in ("script", "config_files")}, indent=1))
     script = rp.get("script")
-    if not script or any(l.startswith("...") for l in script):
-        print("(script not stored in full; re-run bin/check C17 with VERIF_SEED=%d)" % ck.seed); return 0
+    if not script:
+        print("(no script stored; re-run bin/check C17 with VERIF_SEED=%d)" % ck.seed); return 0
+    cfg = rp.get("config")
+    if not os.path.isdir(cfg) and rp.get("config_files"):
+        d = os.path.join(vlib.mktmp("vc17r"), "cfg"); os.makedirs(d)
+        for f, text in rp["config_files"].items(): open(os.path.join(d, f), "w").write(text)
+        script = [l.replace(cfg, d) for l in script]; cfg = d
     exes = (vlib.build_harness(extra_defs=BUILD_A), vlib.build_harness(extra_defs=BUILD_B))
     outs = run_impl(exes, script)
     lines, stblocks, unstable, problems = merge_runs(outs)
-    cfg = rp.get("config"); info = learn(exes[0], cfg) or parse_state([])
+    info = learn(exes[0], cfg) or parse_state([])
     hits = [k for k, d in oracle(blocks(lines), info)]
+    for l in lines:
+        if not l.startswith("st "): print("  " + l)
     print("oracle keys on replay:", sorted(set(hits)))
     return 1 if rp.get("key") in hits else 0
